@@ -519,13 +519,50 @@ func (c *FnCtx) finishPath(st *State, explicit bool) {
 			return
 		}
 	}
+	// named results: the return statement assigns them, deferred functions may change them, then they are returned
+	if explicit && len(c.named) > 0 && len(st.retVals) == len(c.named) {
+		for i, o := range c.named {
+			rv := st.retVals[i]
+			if rv.Loc == nil {
+				st.vars[o] = rv.T
+			}
+		}
+	}
 	// deferred calls, LIFO
-	for i := len(st.defers) - 1; i >= 0; i-- {
+	if len(st.defers) > 0 {
+		i := len(st.defers) - 1
 		call := st.defers[i]
+		st.defers = st.defers[:i]
+		if fl, ok := unparen(call.Fun).(*ast.FuncLit); ok && len(call.Args) == 0 {
+			// a deferred closure without parameters: its body runs in this frame
+			for _, o := range c.execBlock(fl.Body.List, st) {
+				if o.st.dead {
+					continue
+				}
+				if len(c.named) > 0 {
+					o.st.retVals = nil
+					for _, no := range c.named {
+						o.st.retVals = append(o.st.retVals, c.varVal(o.st, no))
+					}
+				} else {
+					o.st.retVals = st.retVals
+				}
+				c.finishPath(o.st, true)
+			}
+			return
+		}
 		c.guarded(st, func() { c.codeEnv(st).eval(call) })
 		if st.dead {
 			return
 		}
+		if len(c.named) > 0 && explicit {
+			st.retVals = nil
+			for _, no := range c.named {
+				st.retVals = append(st.retVals, c.varVal(st, no))
+			}
+		}
+		c.finishPath(st, explicit)
+		return
 	}
 	// results are visible to exit-site ghost statements and asserts
 	for i, rv := range st.retVals {
